@@ -43,8 +43,8 @@ def run(ctx):
     rows = table_events()
     allz = sorted(eb)
     nb = 16
-    batches = [allz[i::nb] for i in range(nb)]
-    outs = forkrun.map_fresh("ptv.massexec", "serve", [{"zs": b, "private": True, "variant": i % 8} for i, b in enumerate(batches)])
+    batches = [sorted(set(allz[i::nb]) | {1}) for i in range(nb)]     # hydrogen (with D and T) is served under every variant
+    outs = forkrun.map_fresh("ptv.massexec", "serve", [{"zs": b, "private": True, "variant": i % 16} for i, b in enumerate(batches)])
     c = rawtables.module_constants("constants")
     header = {"avogadro": dec.to_dec(c["avogadro_number"]), "symof": dict((str(z), v[1]) for z, v in eb.items())}
     total = 0
@@ -57,7 +57,7 @@ def run(ctx):
             ctx.error("serve child failed: " + evs[-600:])
             return
         for j, e in enumerate(evs):
-            e["id"] = "serve:%s:%d:%d" % (e["T"], e["z"], e["a"])
+            e["id"] = "serve:%s:%d:%d%s" % (e["T"], e["z"], e["a"], (":" + e["alias"]) if "alias" in e else "")
             byid[e["id"]] = e
             ctx.distinct(e["id"])
         total += len(evs)
